@@ -175,7 +175,7 @@ int main() {
     ss >> kind;
     while (ss >> tok) h += tok;
     std::ostringstream out;
-    if (kind == "E" || kind == "F") {
+    if (kind == "E" || kind == "F" || kind == "G") {
       const std::string raw = unhex(h);
       const std::string src(raw.c_str());     // C string: cut at the first NUL; stays alive while e is used
       exprNode *e = parseSource(src);
